@@ -331,12 +331,14 @@ func (s *stream[T]) send(chunk T, err error) (closed bool) {
 
 func (s *stream[T]) closeSend() {
 	verifhook.Y("stream.closeSend.pre")
+	defer verifhook.Y("stream.closeSend.post")
 	close(s.items)
 }
 
 func (s *stream[T]) closeRecv() {
 	verifhook.Y("stream.closeRecv.pre")
 	verifhook.EvP("stream.closeRecv", s, "")
+	defer verifhook.Y("stream.closeRecv.post")
 	close(s.closed)
 }
 
@@ -668,6 +670,7 @@ func (p *parentStreamReader[T]) close(idx int) {
 	verifhook.Y("stream.copyclose.pre")
 	verifhook.EvP("copy.close", p, verifhook.Itoa(idx))
 	curClosedNum := atomic.AddUint32(&p.closedNum, 1)
+	verifhook.Y("stream.copyclose.post")
 
 	allClosed := int(curClosedNum) == len(p.subStreamList)
 	if allClosed {
